@@ -3126,6 +3126,43 @@ where
     }
 }
 
+// Verification hooks: compiled only with the `verif-hooks` feature; they add no behaviour.
+#[cfg(feature = "verif-hooks")]
+impl<K, V, S> HashMap<K, V, S> {
+    /// Number of elements moved per inserting call.
+    pub const VERIF_R: usize = crate::raw::VERIF_R;
+
+    /// Assembles a map directly from a hasher, a main table and an optional old table with
+    /// its cached iterator.
+    pub fn verif_from_parts(
+        hash_builder: S,
+        main: hashbrown::raw::RawTable<(K, V)>,
+        old: Option<(
+            hashbrown::raw::RawTable<(K, V)>,
+            hashbrown::raw::RawIter<(K, V)>,
+        )>,
+    ) -> Self {
+        HashMap {
+            hash_builder,
+            table: RawTable::verif_from_parts(main, old),
+        }
+    }
+
+    /// Exposes the main table and, if present, the old table and its cached iterator.
+    #[allow(clippy::type_complexity)]
+    pub fn verif_parts(
+        &self,
+    ) -> (
+        &hashbrown::raw::RawTable<(K, V)>,
+        Option<(
+            &hashbrown::raw::RawTable<(K, V)>,
+            &hashbrown::raw::RawIter<(K, V)>,
+        )>,
+    ) {
+        self.table.verif_parts()
+    }
+}
+
 #[allow(dead_code)]
 fn assert_covariance() {
     fn map_key<'new>(v: HashMap<&'static str, u8>) -> HashMap<&'new str, u8> {
